@@ -224,8 +224,8 @@ Section CreateExit.
   Variable ser : gen -> C.
   (* create's exit: 11 when a recorded format failed, else 10 when a recorded entry is missing (never 0 then), else
      30 when a referenced nested history folder vanished, else 0; missing entries are exactly the reported ones *)
-  Theorem create_exit_selection t req no_dh ip ifl hs : load C cdig t = inl hs ->
-    let o := snd (create_folder Hb matches C cdig ser t req no_dh ip ifl) in
+  Theorem create_exit_selection t req no_dh dr ip ifl hs : load C cdig t = inl hs ->
+    let o := snd (create_folder Hb matches C cdig ser t req no_dh dr ip ifl) in
     (o_outcome o = Abort \/ o_outcome o = Exit 11 \/ o_outcome o = Exit 10 \/ o_outcome o = Exit 30 \/ o_outcome o = Exit 0) /\
     (o_outcome o = Exit 0 -> o_missing o = []) /\
     (o_outcome o = Exit 30 -> o_missing o = []) /\
@@ -233,9 +233,9 @@ Section CreateExit.
   Proof.
     intros Hl. cbn zeta. unfold create_folder. rewrite Hl.
     destruct (fold_left _ _ _) as [sess fails]. cbn [snd o_outcome o_missing].
-    destruct (cs_abort C _) eqn:Ea; [repeat split; intros; try discriminate; auto 10|].
+    destruct (cs_abort C _ || dr_abort _)%bool eqn:Ea; [repeat split; intros; try discriminate; auto 10|].
     destruct (Nat.ltb 0 fails); [repeat split; intros; try discriminate; auto 10|].
-    destruct (sorted_paths _) as [|m ms] eqn:Em.
+    destruct (sorted_paths (missing _ _ _)) as [|m ms] eqn:Em.
     - destruct (missing_history_folders C hs t); repeat split; intros; try discriminate; auto 10.
     - repeat split; intros; try discriminate; auto 10.
   Qed.
